@@ -247,7 +247,7 @@ func TestC03(t *testing.T) {
 		ev.Note("exhaustive-timeforms", fmt.Sprintf("%d time expressions: every frame number below the rate (24,25,30,50,60) x 7 h:m:s values, Nf offsets, every 1-3 digit fraction in clock time and in h/m/s/ms offsets, clock times without fraction", n))
 	})
 
-	rapidCheck(t, "C03/read", tier(2500, 250000), func(rt *rapid.T) {
+	rapidCheck(t, "C03/read", tier(2500, 1500000), func(rt *rapid.T) {
 		c := c03ReadCase{Doc: genTTMLDoc(rt, false), Rend: genTTMLRendering(rt)}
 		addEmptyLines(rt, &c.Doc)
 		b := renderTTML(c.Doc, c.Rend)
@@ -258,7 +258,7 @@ func TestC03(t *testing.T) {
 		}
 		verdict(rt, "C03", "c03read", c, checkC03Read)
 	})
-	rapidCheck(t, "C03/write", tier(1500, 150000), func(rt *rapid.T) {
+	rapidCheck(t, "C03/write", tier(1500, 900000), func(rt *rapid.T) {
 		c := c03WriteCase{Doc: genTTMLDoc(rt, true), Indent: rapid.SampledFrom([]string{"default", "", "\t", "  "}).Draw(rt, "indentopt"), Foreign: rapid.IntRange(0, 2).Draw(rt, "foreign") == 0}
 		addEmptyLines(rt, &c.Doc)
 		nt, ls := c03Labels(c.Doc, nil)
